@@ -44,19 +44,12 @@ Definition eff_owner (opw upw : bytes) : bytes := if is_empty opw then upw else 
 (* What the encryption dictionary remembers about the passwords. *)
 Record enc := mkEnc {
   eR : N;          (* /R *)
-  eO : bytes;      (* R<=4: the padded password the RC4 key of /O is derived from; R>=5: the bytes hashed into /O *)
+  eO : bytes;      (* R<=4: the padded password the RC4 key of /O is derived from; R>=5: the prepared bytes hashed into /O *)
   eU : bytes;      (* R<=4: the padded password /U is derived from (also what /O decrypts to); R>=5: bytes hashed into /U *)
   eP : Z           (* /P *)
 }.
 
 Inductive doc := Plain | Encrypted (e : enc).
-
-(* calcOAndU (o, u) for R<=4: o() uses key(ownerpw, userpw) and the padded user password; u() uses encKey(userpw).
-   calcOAndUAES256 / calcOAndUAES256Rev6: upw := []byte(ctx.UserPW); opw := []byte(ctx.OwnerPW), hashed as they are
-   (no preparation, no truncation). *)
-Definition write_enc (r : N) (opw upw : bytes) (p : Z) : enc :=
-  if aes256 r then mkEnc r opw upw p
-  else mkEnc r (pad32 (eff_owner opw upw)) (pad32 upw) p.
 
 Inductive vres := VOk | VNo | VErr.
 
@@ -65,12 +58,29 @@ Section Prep.
    not modelled): None = error ("precis: disallowed rune encountered") *)
 Variable prep : bytes -> option bytes.
 
+(* preparedPasswordAES256 (since dd3e7ff0): processInput, then truncation to 127 bytes *)
+Definition prepared127 (pw : bytes) : option bytes := option_map trunc127 (prep pw).
+
+(* calcOAndU (o, u) for R<=4: o() uses key(ownerpw, userpw) and the padded user password; u() uses encKey(userpw).
+   calcOAndUAES256 / calcOAndUAES256Rev6: upw, err := preparedPasswordAES256(ctx.UserPW), then
+   opw, err := preparedPasswordAES256(ctx.OwnerPW); an error aborts the operation (None). *)
+Definition write_enc (r : N) (opw upw : bytes) (p : Z) : option enc :=
+  if aes256 r then
+    match prepared127 upw with
+    | None => None
+    | Some u => match prepared127 opw with
+                | None => None
+                | Some o => Some (mkEnc r o u p)
+                end
+    end
+  else Some (mkEnc r (pad32 (eff_owner opw upw)) (pad32 upw) p).
+
 (* validateUserPassword / validateUserPasswordAES256 / validateUserPasswordAES256Rev6 *)
 Definition validate_user (e : enc) (upw : bytes) : vres :=
   if aes256 (eR e) then
-    match prep upw with
+    match prepared127 upw with
     | None => VErr
-    | Some p => if beq (trunc127 p) (eU e) then VOk else VNo
+    | Some p => if beq p (eU e) then VOk else VNo
     end
   else if beq (pad32 upw) (eU e) then VOk else VNo.
 
@@ -80,16 +90,17 @@ Definition validate_user (e : enc) (upw : bytes) : vres :=
 Definition validate_owner (e : enc) (opw upw : bytes) : vres :=
   if aes256 (eR e) then
     if is_empty opw then VNo
-    else match prep opw with
+    else match prepared127 opw with
          | None => VErr
-         | Some p => if beq (trunc127 p) (eO e) then VOk else VNo
+         | Some p => if beq p (eO e) then VOk else VNo
          end
   else if beq (pad32 (eff_owner opw upw)) (eO e) then VOk else VNo.
 
 Inductive outcome :=
 | OpenOwner | OpenUser
 | EOwnerRequired | EWrongPassword | EInvalidPerms | EPermDenied | EValidate
-| ENotEncrypted | EEncrypted.
+| ENotEncrypted | EEncrypted
+| EPrepare.    (* the writer cannot prepare a new AES-256 password: "password entries: %w" *)
 
 (* read.go setupEncryptionKey + handlePermissions, as a function of the two validation results.
    needs_both = needsOwnerAndUserPassword(ctx.Cmd); perms_ok = validatePermissions(ctx);
@@ -137,6 +148,13 @@ Inductive op :=
 
 Inductive result := ROk | RErr (o : outcome).
 
+(* the encryption dictionary is rewritten, or the operation fails before anything is written *)
+Definition rewrite_with (d : doc) (w : option enc) : result * doc :=
+  match w with
+  | Some e' => (ROk, Encrypted e')
+  | None => (RErr EPrepare, d)
+  end.
+
 (* One api call: (result, document afterwards).  On an error nothing is written: the document is unchanged. *)
 Definition step (d : doc) (o : op) : result * doc :=
   match o with
@@ -144,7 +162,7 @@ Definition step (d : doc) (o : op) : result * doc :=
     match d with
     | Encrypted _ => (RErr EEncrypted, d)                                (* checkForEncryption: ErrEncrypted *)
     | Plain => if is_empty opw then (RErr EOwnerRequired, d)             (* handleUnencryptedFile *)
-               else (ROk, Encrypted (write_enc r opw upw p))             (* setupEncryption, calcOAndU *)
+               else rewrite_with d (write_enc r opw upw p)               (* setupEncryption, calcOAndU *)
     end
   | OpDecrypt opw upw =>
     match d with
@@ -159,7 +177,7 @@ Definition step (d : doc) (o : op) : result * doc :=
     | Encrypted e =>
       let a := access true e opw upw_old in
       if opened a
-      then (ROk, Encrypted (write_enc (eR e) opw upw_new (eP e)))        (* updateEncryption: ctx.UserPW = *ctx.UserPWNew *)
+      then rewrite_with d (write_enc (eR e) opw upw_new (eP e))          (* updateEncryption: ctx.UserPW = *ctx.UserPWNew *)
       else (RErr a, d)
     end
   | OpChangeOwner upw opw_old opw_new =>
@@ -170,7 +188,7 @@ Definition step (d : doc) (o : op) : result * doc :=
     | Encrypted e =>
       let a := access true e opw_old upw in
       if opened a
-      then (ROk, Encrypted (write_enc (eR e) opw_new upw (eP e)))        (* updateEncryption: ctx.OwnerPW = *ctx.OwnerPWNew *)
+      then rewrite_with d (write_enc (eR e) opw_new upw (eP e))          (* updateEncryption: ctx.OwnerPW = *ctx.OwnerPWNew *)
       else (RErr a, d)
     end
   | OpSetPerms opw upw p =>
@@ -179,7 +197,7 @@ Definition step (d : doc) (o : op) : result * doc :=
     | Encrypted e =>
       let a := access true e opw upw in
       if opened a
-      then (ROk, Encrypted (write_enc (eR e) opw upw p))                 (* updateEncryption: ctx.E.P = ctx.Permissions; O, U recomputed *)
+      then rewrite_with d (write_enc (eR e) opw upw p)                   (* updateEncryption: ctx.E.P = ctx.Permissions; O, U recomputed *)
       else (RErr a, d)
     end
   end.
@@ -195,7 +213,7 @@ Fixpoint run (d : doc) (h : list op) : doc :=
 Definition outcome_code (o : outcome) : N :=
   match o with
   | OpenOwner => 1 | OpenUser => 2 | EOwnerRequired => 3 | EWrongPassword => 4 | EInvalidPerms => 5
-  | EPermDenied => 6 | EValidate => 7 | ENotEncrypted => 8 | EEncrypted => 9
+  | EPermDenied => 6 | EValidate => 7 | ENotEncrypted => 8 | EEncrypted => 9 | EPrepare => 10
   end.
 
 Definition result_code (r : result) : N := match r with ROk => 0 | RErr o => outcome_code o end.
